@@ -1,7 +1,8 @@
 """C05 - resuming from a checkpoint equals never having stopped (E2, differential).
 
 For every configuration of the line-up lattice and n batches: ALL 3^(n-1) cut patterns, each of the n-1 boundaries being
-'n' (same calibrate() call), 'p' (a plain second call) or 'r' (checkpoint -> fresh object restored from disk). After every
+'n' (same calibrate() call), 'p' (a plain second call) or 'r' (checkpoint -> fresh object restored from disk); some cells add
+'x' (restore, run a batch on a throw-away object that does not touch the folder, restore again). After every
 observable boundary k the canonical calibrator state (history AND hidden state: generators, cursors, swarm, scheduler
 position) must equal the state of an uninterrupted twin after calibrate(k). The explored graph must collapse to one state
 per depth.
@@ -75,7 +76,14 @@ def run_path(cfg, pattern, ref):
                 v.append((f"diverged-after-{'+'.join(sorted(set(pattern[:k - 1]) - {'n'})) or 'plain'}",
                           f"pattern {''.join(pattern)}: state after batch {k} differs from the uninterrupted run (next sampler {nxt}); first differences: {d[:3]}"))
                 return v, reached
-            if boundary == "r":
+            if boundary == "x":
+                # retry workflow: a first restored object runs a batch WITHOUT touching the folder and is thrown away,
+                # then the run is restored again from the same, unchanged checkpoint
+                throwaway = C.restore(folder, cfg)
+                throwaway.saving_folder = None
+                with quiet():
+                    throwaway.calibrate(1)
+            if boundary in ("r", "x"):
                 cal = C.restore(folder, cfg)
                 st2 = C.state(cal)
                 if st2 != ref[k][0]:
@@ -148,6 +156,9 @@ def main(ctx):
     for lu in ([["Halton", "RandomUniform", "RSequence"], ["RSequence", "ParticleSwarm", "BestBatch"]]):
         cells.append({"cfg": {"lineup": [{"cls": c, "bs": b} for c, b in zip(lu, (2, 3, 1))], "seed": S, "dims": 2, "model": "gauss2", "ensemble": 1}, "n": 5 if ctx.quick else 6,
                       "symbols": "pr" if ctx.quick else "npr"})
+    # the retry workflow ('x': restore, run a batch on a throw-away object, restore again from the unchanged checkpoint)
+    for lu in (lus[5], lus[13], lus[8]):
+        cells.append({"cfg": {"lineup": lu, "seed": S, "dims": 2, "model": "gauss2", "ensemble": 1}, "n": 4, "symbols": "nprx"})
     # larger-scope probes: a five-sampler line-up, and a 12-batch run cut once at every position (plain and restore)
     five = [{"cls": c, "bs": b} for c, b in zip(("Halton", "RandomUniform", "ParticleSwarm", "BestBatch", "RSequence"), (3, 2, 2, 4, 1))]
     cells.append({"cfg": {"lineup": five, "seed": S, "dims": 3, "model": "gauss2", "ensemble": 1}, "n": 7, "symbols": "pr", "single_cut": True})
